@@ -1,0 +1,14 @@
+//go:build verif
+
+// Copyright JAMF Software, LLC
+
+package cmd
+
+import "context"
+
+// VerifAuthFunc returns the authorization function the leader and follower commands install on
+// their protected services for the given token. Verification hook, compiled only with the verif
+// build tag.
+func VerifAuthFunc(token string) func(ctx context.Context) (context.Context, error) {
+	return authFunc(token)
+}
